@@ -1181,7 +1181,32 @@ def matches_known(entry, case, failure):
     return _probe_zero(c_, a["q"], b["q"])
 
 
+CLASS_NPSCALAR = "array-op-array: list/tuple container whose elements are numpy scalars, units differ"
+
+
+def _replay_npscalar(entry):
+    """the recorded input of C10-list-of-numpy-scalars-unit-matching on the real code (list elements are plain
+    Python numbers in the generators: element types inside lists are not modelled)"""
+    import numpy
+
+    from barril.units import Array, Scalar
+
+    rc = entry.get("replay_case") or {}
+    elem = getattr(numpy, rc.get("right_elem", "int64"))(1)
+    lu, ru = rc.get("left_unit", "m"), rc.get("right_unit", "cm")
+    want = (Scalar(rc.get("left", [1.0])[0], lu) + Scalar(elem, ru)).value
+    try:
+        got = (Array(list(rc.get("left", [1.0])), lu) + Array([elem], ru)).values[0]
+    except TypeError as e:
+        return dict(clause="each element equals the Scalar result", raised=repr(e), scalar_result=want,
+                    **{"class": CLASS_NPSCALAR})
+    return None if abs(got - want) <= 1e-12 * max(1.0, abs(want)) else dict(
+        clause="each element equals the Scalar result", got=got, want=want, **{"class": CLASS_NPSCALAR})
+
+
 def replay_finding(entry, ctx):
+    if (entry.get("matcher") or {}).get("class") == CLASS_NPSCALAR:
+        return _replay_npscalar(entry)
     if (entry.get("matcher") or {}).get("class") != CLASS_PROBE:
         return None
     rc = entry.get("replay_case") or {}
